@@ -104,7 +104,7 @@ PROPS = {
     "C02": {
         "quick_ms": 20000,
         "thorough_ms": 300000,
-        "floors": {"spelling.value.non-utf8": 10000, "spelling.value.non-utf8-attached": 1000, "shape.positionals-declared-out-of-index-order": 2000, "shape.last-positional-after-omitted-one": 150, "shape.last-positional-after-omitted-one.out-of-index-order": 20, "shape.more-than-20-items": 500, "spelling.prefix.long-by-setting-two-levels-up": 500, "spelling.sub.long-flag-prefix": 150, "result.ok": 10000, "spelling.cluster.option-last": 100, "spelling.opt.long-eq": 500, "spelling.opt.short-attached": 150,
+        "floors": {"spelling.value.lone-dash": 2500, "spelling.value.non-utf8": 10000, "spelling.value.non-utf8-attached": 1000, "shape.positionals-declared-out-of-index-order": 2000, "shape.last-positional-after-omitted-one": 150, "shape.last-positional-after-omitted-one.out-of-index-order": 20, "shape.more-than-20-items": 500, "spelling.prefix.long-by-setting-two-levels-up": 500, "spelling.sub.long-flag-prefix": 150, "result.ok": 10000, "spelling.cluster.option-last": 100, "spelling.opt.long-eq": 500, "spelling.opt.short-attached": 150,
                    "spelling.prefix.long": 250, "spelling.escape.optional": 150, "spelling.escape.required-for-last": 150,
                    "spelling.terminator": 100, "spelling.sub.short-flag": 50, "spelling.sub.long-flag": 50, "spelling.pos.multi": 500},
         "rule": "conventional-class command trees (flags SetTrue/SetFalse/Count, options Set/Append with num_args in {1, 2, 1..=3, 2..=3, 1.., 0.., 0..=1}, "
@@ -164,7 +164,7 @@ PROPS = {
     "C05": {
         "quick_ms": 15000,
         "thorough_ms": 240000,
-        "floors": {"tail.non-utf8-with-delimiter": 1500, "tail.after-values-of-negative-number-positional": 1000, "tail.ok": 10000, "tail.dash-tokens": 5000, "tail.after-values-before-escape": 2500, "tail.dont-delimit-with-delimiter": 500, "tail.terminator-declared": 2500},
+        "floors": {"tail.lead-value-directly-before-escape": 250, "tail.non-utf8-with-delimiter": 1500, "tail.after-values-of-negative-number-positional": 1000, "tail.ok": 10000, "tail.dash-tokens": 5000, "tail.after-values-before-escape": 2500, "tail.dont-delimit-with-delimiter": 500, "tail.terminator-declared": 2500},
         "rule": "conventional commands (options, flags, subcommands incl. flag subcommands, infer_*) whose tail level (root or a subcommand) ends in a "
                 "multi-valued positional `rest` (num_args 0.. / 1.., Set/Append, with/without last(true), with/without a leading single positional (sometimes with explicit indices and the higher index declared first), "
                 "String or OsString parser, optional delimiter, dont_delimit_trailing_values, optional value terminator `end` with/without ignore_case) x valid prefixes rendered from intents (any spelling; "
@@ -205,7 +205,7 @@ PROPS = {
     "C09": {
         "quick_ms": 20000,
         "thorough_ms": 300000,
-        "floors": {"spelling.sub.long-flag-prefix": 250, "result.ok": 10000, "global.supplied-at-depth-1": 1500, "global.supplied-at-depth-2": 500, "external.checked": 150,
+        "floors": {"spec.subcommand-with-empty-name-or-alias": 250, "spelling.sub.long-flag-prefix": 250, "result.ok": 10000, "global.supplied-at-depth-1": 1500, "global.supplied-at-depth-2": 500, "external.checked": 150,
                    "spelling.cluster.child-flags-after-flag-sub": 150, "spelling.cluster.parent-flags-before-flag-sub": 50,
                    "spelling.sub.short-flag": 250, "spelling.sub.long-flag": 150, "spelling.sub.alias": 150},
         "rule": "conventional trees of depth <= 2 with global flags/options (SetTrue/SetFalse/Count/Set, defaults) defined at depth 0 or 1, aliases, "
@@ -222,7 +222,7 @@ PROPS = {
     "C03": {
         "quick_ms": 15000,
         "thorough_ms": 240000,
-        "floors": {"result.ok": 10000, "result.err": 10000, "relevant.requirement-satisfied": 2500, "relevant.exempt-conflict": 500,
+        "floors": {"argv.occurrence-without-value": 5000, "result.ok": 10000, "result.err": 10000, "relevant.requirement-satisfied": 2500, "relevant.exempt-conflict": 500,
                    "relevant.exempt-exclusive": 100, "relevant.exempt-subcommand": 250, "relevant.conflict-half-present": 500, "argv.append-several-occurrences": 5000},
         "rule": "2-7 flags/options (Set or Append, defaults, env) + 0-2 groups (required/multiple/conflicts (against arguments or another, disjoint group)/requires) with random relation digraphs: conflicts_with "
                 "(args and groups), requires, requires_if(s) (the same target possibly named by several values and unconditionally), overrides (1/3 of cases, incl. chains and self), required, exclusive, "
@@ -240,7 +240,7 @@ PROPS = {
     "C10": {
         "quick_ms": 20000,
         "thorough_ms": 300000,
-        "floors": {"else-help.shown": 2500, "faultfree.prefix-by-inherited-setting": 250, "faultfree.accepted": 5000, "fault.UnknownLong": 2500, "fault.SurplusPositional": 500, "fault.DropRequired": 500, "fault.RepeatSet": 150,
+        "floors": {"else-help.not-shown-for-valueless-option": 200, "else-help.not-shown-for-flag": 500, "else-help.shown": 2500, "faultfree.prefix-by-inherited-setting": 250, "faultfree.accepted": 5000, "fault.UnknownLong": 2500, "fault.SurplusPositional": 500, "fault.DropRequired": 500, "fault.RepeatSet": 150,
                    "fault.TooFewValues": 500, "fault.NoValueAtEnd": 500, "fault.ValueOnFlag": 1000, "fault.BadTypedValue": 250, "fault.MissingEquals": 40,
                    "fault.MissingSubcommand": 50, "fault.NonUtf8": 1500, "fault.UnknownWord": 150, "contract.DisplayHelp": 50, "contract.DisplayVersion": 15,
                    "relations.conflict-error": 1000, "relations.missing-error": 1000, "suggestion.arg": 50, "suggestion.subcommand": 15},
@@ -277,7 +277,7 @@ PROPS = {
         "rel_replay": True,
         "quick_ms": 20000,
         "thorough_ms": 300000,
-        "floors": {"hidden.subcommand-checked-in-help-of-help": 500, "helpsub.own-help-rendered": 2500, "hidden.arg-of-a-level-above-checked": 2500, "width.beyond-200": 500, "render.ok": 10000, "render.width-sweep": 10000, "helpflag.rendered": 10000, "helpflag.level-checked": 5000, "visible.checked": 25000,
+        "floors": {"stratum.sparse-sections.no-help-subcommand": 500, "hidden.subcommand-checked-in-help-of-help": 500, "helpsub.own-help-rendered": 2500, "hidden.arg-of-a-level-above-checked": 2500, "width.beyond-200": 500, "render.ok": 10000, "render.width-sweep": 10000, "helpflag.rendered": 10000, "helpflag.level-checked": 5000, "visible.checked": 25000,
                    "visible.checked-short-only": 1500, "hidden.arg-checked": 1500, "hidden.subcommand-checked": 1500, "hidden.possible-value-checked": 150,
                    "visible.possible-value-checked": 500, "stratum.sparse-sections": 1000, "helpsub.rendered": 1000,
                    "hidden.custom-template-pages": 2500, "hidden.mode-hidden-option-checked": 1500},
@@ -343,7 +343,7 @@ PROPS = {
     "C16": {
         "quick_ms": 30000,
         "thorough_ms": 300000,
-        "floors": {"shape.two-trailing-positionals.first-terminated": 10, "shape.two-trailing-positionals.first-catch-all": 10, "generated.bash": 500, "generated.zsh": 500, "generated.fish": 500, "generated.powershell": 500, "generated.elvish": 500,
+        "floors": {"mention.checked-inside-hidden-subcommand": 500, "shape.two-trailing-positionals.first-terminated": 10, "shape.two-trailing-positionals.first-catch-all": 10, "generated.bash": 500, "generated.zsh": 500, "generated.fish": 500, "generated.powershell": 500, "generated.elvish": 500,
                    "generated.nushell": 500, "mention.checked": 25000, "mention.short-checked": 10000, "bash.syntax-ok": 500, "bash.queries": 10000},
         "rule": "wild command trees (depth <= 2, marker names incl. hyphenated / underscored / rarely `__` subcommand names, aliases, flag subcommands, "
                 "value hints, possible values incl. hidden, hidden args/subcommands, globals, groups/relations, benign or hostile text) x the six "
@@ -380,7 +380,7 @@ PROPS = {
     "C15": {
         "quick_ms": 15000,
         "thorough_ms": 240000,
-        "floors": {"update.flattened-struct.boxed-required-not-named": 2500, "update.flattened-enum.own-variant-to-flattened-child": 500, "update.flattened-enum.flattened-child-to-other-flattened-child": 500, "update.flattened-enum.same-variant": 250, "update.flattened-enum.to-own-variant": 500, "roundtrip.ok": 10000, "agree.ok": 15000, "agree.err": 15000, "update.ok": 5000, "update.unnamed-field-kept": 5000, "value_enum.names": 500,
+        "floors": {"optional-flatten.single-option-present": 1000, "optional-flatten.single-flag-present": 1000, "update.flattened-struct.boxed-required-not-named": 2500, "update.flattened-enum.own-variant-to-flattened-child": 500, "update.flattened-enum.flattened-child-to-other-flattened-child": 500, "update.flattened-enum.same-variant": 250, "update.flattened-enum.to-own-variant": 500, "roundtrip.ok": 10000, "agree.ok": 15000, "agree.err": 15000, "update.ok": 5000, "update.unnamed-field-kept": 5000, "value_enum.names": 500,
                    "type.N": 500, "type.A": 500, "type.B": 500, "type.C": 500, "type.D": 500, "type.E": 500, "type.F": 500, "type.G": 500, "type.L": 500,
                    "update.sub.option.same-variant": 300, "update.sub.option.other-variant": 300, "update.sub.plain.same-variant": 300, "update.sub.option.no-subcommand-named": 150},
         "rule": "corpus of 11 derived Parser types (+ Args, 3 Subcommand enums, 1 ValueEnum) spanning bool / SetFalse bool / counter / T / Option<T> / "
